@@ -990,6 +990,36 @@ def check_end_after_drain(ck, prog, rule="C15-PROTO"):
           key="PROTO:end-checked-after-drain")
 
 
+def check_compact(ck, prog, rule="C15-PROTO"):
+    """When simple_code() compacts its buffer -- memmove(coder->buffer, coder->buffer + X, ...) -- the bookkeeping has to
+    move by the same X: `coder->size -= X` (and pos = 0).  With any other amount the region [pos, size) no longer describes
+    the bytes that were moved: bytes are emitted twice or never, depending on how small the caller's output buffers are."""
+    f = prog.fn("simple_code", "simple_coder.c")
+    ck.saw_function(f)
+    n = 0
+    for b, i, e in f.iter_elems():
+        for c in ex.calls(e, into_refs=True):
+            if c.get("fn") not in ("memmove", "__builtin_memmove", "__builtin___memmove_chk") or len(c["args"]) < 2:
+                continue
+            if ex.show(c["args"][0]) != "coder->buffer":
+                continue
+            src = ex.strip(c["args"][1])
+            if not (src.get("k") == "bin" and src["op"] == "+" and ex.show(src["l"]) == "coder->buffer"):
+                continue
+            X = ex.show(src["r"])
+            subs = [ex.show(r) for bb, ii, ee in f.iter_elems() if bb.id == b.id
+                    for (l, r, op, nd) in ex.writes(ee) if ex.show(l) == "coder->size" and op == "-=" and r is not None]
+            n += 1
+            ok = subs == [X]
+            ck.ob(rule, "compact-by-same-amount", ok, common.where(f, c),
+                  "simple_code: memmove from buffer + %s and size -= %s" % (X, X) if ok else
+                  "simple_code(): the buffer is compacted with memmove(coder->buffer, coder->buffer + %s, ...) but coder->size is "
+                  "reduced by %s: [pos, size) then covers bytes that are not there (data duplicated or lost when the output is "
+                  "consumed in small pieces)" % (X, subs or "nothing"), key="PROTO:compact-by-same-amount")
+    if n < 1:
+        raise AnalysisBroken("simple_code: compaction memmove not found")
+
+
 def check_proto(ck, prog):
     from . import oblig
     from .oblig import MP
@@ -1058,7 +1088,8 @@ def check_proto(ck, prog):
           "stream that were waiting in coder->buffer are released unfiltered, so the result depends on how the output was "
           "sliced", key="PROTO:buffer-always-filtered")
     check_end_after_drain(ck, prog)
-    ck.floor("C15-PROTO", 7)
+    check_compact(ck, prog)
+    ck.floor("C15-PROTO", 8)
 
 
 def run(ck):
